@@ -628,8 +628,9 @@ impl<'a> ParserState<'a> {
             }
         } else {
             match text.parse::<f32>() {
-                Ok(num) => Ok(num),
-                Err(_) => Err(ParserError::malformed_number(self, context, text)),
+                // a literal that overflows to infinity can't be represented: it would be written as "inf"
+                Ok(num) if num.is_finite() => Ok(num),
+                _ => Err(ParserError::malformed_number(self, context, text)),
             }
         }
     }
@@ -650,8 +651,9 @@ impl<'a> ParserState<'a> {
             }
         } else {
             match text.parse::<f64>() {
-                Ok(num) => Ok(num),
-                Err(_) => Err(ParserError::malformed_number(self, context, text)),
+                // a literal that overflows to infinity can't be represented: it would be written as "inf"
+                Ok(num) if num.is_finite() => Ok(num),
+                _ => Err(ParserError::malformed_number(self, context, text)),
             }
         }
     }
